@@ -107,6 +107,64 @@ theorem code_scopes_contain_panics (x : Exec) : x.killed vmRecovers = false :=
 /-- the array sizes of the VM model are the ones in vm/vm.go -/
 theorem vm_limits_match : maxStackDepth = maxStack ∧ maxFrameDepth = maxFrames := by decide
 
+/-! ### Native nesting (Model 4c) -/
+
+/-- `frames` and `stack` of `vm.VirtualMachine` are Go ARRAYS of the two limits: every index
+    into them is bounds-checked by Go and an index past the end is a Go panic (which the
+    recover scopes contain), whichever function computes the index.  A slice that grows has no
+    such end: `each_reentry_needs_bound`. -/
+theorem frames_fixed_array :
+    vmArrays = ["frames: [MaxFrameDepth]frame", "stack: [MaxStackDepth]object.Object"] := by decide
+
+/-- the three places where `vm.eval` is called, each after claiming a frame: frame 0 for the
+    entry point, frame `fp+1` for every function call (`callFunction`: the Call opcode,
+    callbacks of builtins through the context's CallFunc, `vm.Call`, deferred calls) and for
+    every module body (`importModule`) — the `enter` step of `nestStep` -/
+def reviewedEvalReentries : List String := [
+  "vm.VirtualMachine.callFunction: activateFunction(vm.fp + 1, …) then eval",
+  "vm.VirtualMachine.importModule: activateCode(vm.fp + 1, …) then eval",
+  "vm.VirtualMachine.runCodeInternal: activateCode(0, …) then eval"
+]
+
+/-- no re-entry of `vm.eval` outside the reviewed list (none that claims no frame, or another
+    frame than `fp+1`) -/
+theorem eval_reentries_reviewed :
+    evalReentries.all (reviewedEvalReentries.contains ·) = true := by decide
+
+/-! ### Mutexes (Model 4d) -/
+
+/-- the mutex calls of a function are `m.Lock()` then `defer m.Unlock()` on the same `m` (or
+    the read-lock pair), and nothing else: on every path through the function the mutex is
+    taken once and released once, at the return -/
+def lockThenDeferUnlock (ops : List (String × String × Bool)) : Bool :=
+  match ops with
+  | [(m1, "Lock", false), (m2, "Unlock", true)] => m1 == m2
+  | [(m1, "RLock", false), (m2, "RUnlock", true)] => m1 == m2
+  | _ => false
+
+/-- every function of importer/, vm/, compiler/ and the root package that touches a mutex
+    follows that discipline: no `Unlock` by hand anywhere on the evaluation path, hence no
+    path on which a deferred `Unlock` can meet a mutex that was already released -/
+theorem mutex_discipline : mutexOps.all (fun f => lockThenDeferUnlock f.2) = true := by decide
+
+/-- a mutex call of the table as an event of the model -/
+def evOf : String × String × Bool → Option MuEv
+  | (_, "Lock", false) => some .lock
+  | (_, "Unlock", false) => some .unlock
+  | (_, "Unlock", true) => some .deferUnlock
+  | _ => none
+
+/-- the mutex events of `LocalImporter.Import` and `FSImporter.Import` in the code of THIS run
+    are the ones of the Impl model, on every path — so `import_never_fatal` (Props) speaks
+    about this code: no sequence of imports, whatever the module files contain, ends the
+    process or leaves the importer locked (the harness's `importer|…` and `import|…` cases
+    observe the same on the real importers) -/
+theorem importer_lock_discipline (cached : Bool) (f : FileSt) :
+    (mutexOps.lookup "importer.LocalImporter.Import").map (·.filterMap evOf) = some (implPaths cached f) ∧
+    (mutexOps.lookup "importer.FSImporter.Import").map (·.filterMap evOf) = some (implPaths cached f) := by
+  unfold implPaths
+  constructor <;> decide
+
 /-- every emit site names its opcode as a constant and passes operands one by one -/
 theorem emit_all_static : emitDynamic = [] := by decide
 
